@@ -4,7 +4,7 @@ Each model states what the library routine returns in terms of value nodes.  An 
 the analysis never guesses.  The list is deliberately wider than what today's tree calls, so that idiomatic
 rewrites (`iter().fold`, `sort_by` with a reversed comparator, `binary_search`, `checked_sub`, …) stay analysable.
 """
-from .pdb import Uncertified, INT_BITS
+from .pdb import Uncertified, INT_BITS, is_signed
 from .sym import (overflow_flag, mk, C, agg, mk_bin, mk_ite, mk_not, mk_and, mk_or, mk_cast, mk_call, mk_un, ty_of, TRUE, FALSE, UNIT,
                   UNDEF, OPTION_NONE, option_some, map_ite, Obligation, wrap)
 
@@ -286,6 +286,9 @@ def iter_items_cond(ex, ctx, st, it):
                     run = mk_or(run, mk_and(c, mk_not(p_)))
                     out.append((mk_and(c, run), x))
             return out, st
+        if nm == 'PrefixSeq':
+            seq, conds, pos = it[2]
+            return [(conds[2][i], seq[2][i]) for i in range(pos[1], len(seq[2]))], st
         if nm == 'CondSeq':
             seq, conds, pos = it[2]
             pc_ = pos_consts(pos)
@@ -296,6 +299,19 @@ def iter_items_cond(ex, ctx, st, it):
                 reached = map_ite_memo(pos, lambda p, i=i: TRUE if p[1] <= i else FALSE)
                 out.append((mk_and(reached, conds[2][i]), seq[2][i]))
             return out, st
+        if nm in ('Zip', 'Enumerate', 'Skip', 'Take') and has_filter(ex, st, it):
+            # adapters that depend on an item's rank among the items actually produced: compact first
+            inner, st = iter_items_cond(ex, ctx, st, it[2][0])
+            inner = compact(inner)
+            if nm == 'Enumerate':
+                return [(c, agg(('tuple',), (C(i, 'usize'), x))) for i, (c, x) in enumerate(inner)], st
+            if nm in ('Skip', 'Take'):
+                if it[2][1][0] != 'c':
+                    raise Uncertified("%s with a symbolic count" % nm.lower())
+                return (inner[it[2][1][1]:] if nm == 'Skip' else inner[:it[2][1][1]]), st
+            other, st = iter_items_cond(ex, ctx, st, it[2][1])
+            other = compact(other)
+            return [(mk_and(c1, c2), agg(('tuple',), (x, y))) for (c1, x), (c2, y) in zip(inner, other)], st
         if nm == 'Filter':
             # presence conditions are no longer prefix-closed; only consumers that treat items independently
             # (fold with a per-item ite, any, all, count) may use them
@@ -308,6 +324,82 @@ def iter_items_cond(ex, ctx, st, it):
             return out, st
     items, st = iter_items(ex, ctx, st, it)
     return [(TRUE, x) for x in items], st
+
+
+def has_filter(ex, st, it):
+    while it[0] == 'ref':
+        it = ex.load(st, it)
+    if it[0] != 'agg' or it[1][0] != 'model':
+        return False
+    if it[1][1] == 'Filter':
+        return True
+    if it[1][1] == 'CondSeq':
+        return True
+    if it[1][1] in ('Map', 'Copied', 'Cloned', 'Enumerate', 'Skip', 'Take', 'Rev'):
+        return has_filter(ex, st, it[2][0])
+    if it[1][1] == 'Zip':
+        return has_filter(ex, st, it[2][0]) or has_filter(ex, st, it[2][1])
+    return False
+
+
+def prefix_closed(ex, st, it):
+    """presence conditions produced by iter_items_cond for this iterator are prefix-closed"""
+    while it[0] == 'ref':
+        it = ex.load(st, it)
+    if it[0] != 'agg' or it[1][0] != 'model':
+        return True
+    if it[1][1] in ('Filter', 'CondSeq'):
+        return False
+    if it[1][1] in ('Map', 'Copied', 'Cloned'):
+        return prefix_closed(ex, st, it[2][0])
+    return True
+
+
+def compact(citems):
+    """[(presence, item)] with arbitrary presence conditions -> the same sequence re-indexed by rank among the present
+    items: entry k is (at least k+1 items are present, the k-th present item).  Presence becomes prefix-closed."""
+    n = len(citems)
+    if all(c is TRUE for c, _ in citems):
+        return list(citems)
+    if n > 16:
+        raise Uncertified("compaction of more than 16 conditional items")
+    # E[k] at step i: exactly k of the first i items are present
+    E = [TRUE] + [FALSE] * n
+    pick = [[] for _ in range(n)]        # pick[k]: list of (condition "item i is the k-th present one", item)
+    for i, (c, x) in enumerate(citems):
+        for k in range(min(i, n - 1) + 1):
+            cond = mk_and(c, E[k])
+            if cond is not FALSE:
+                pick[k].append((cond, x))
+        nE = [FALSE] * (n + 1)
+        for k in range(i + 2):
+            stay = mk_and(E[k], mk_not(c)) if k <= i else FALSE
+            come = mk_and(E[k - 1], c) if k >= 1 else FALSE
+            nE[k] = mk_or(stay, come)
+        E = nE
+    out = []
+    for k in range(n):
+        if not pick[k]:
+            break
+        pres = FALSE
+        for cond, _ in pick[k]:
+            pres = mk_or(pres, cond)
+        item = pick[k][-1][1]
+        for cond, x in reversed(pick[k][:-1]):
+            item = ite_any(cond, x, item)
+        out.append((pres, item))
+    return out
+
+
+def ite_any(c, a, b):
+    """ite over values of any shape (scalars, references, aggregates of the same shape)"""
+    if a is b:
+        return a
+    if c is TRUE:
+        return a
+    if c is FALSE:
+        return b
+    return mk_ite(c, a, b)
 
 
 def pos_consts(pos):
@@ -533,6 +625,31 @@ def apply(ex, ctx, st, f, args, dest_ty, term):
                 return option_some(ordering(ex, 'Equal'))
             return option_some(ordering(ex, 'Greater' if sa_ else 'Less'))
         return map_ite(a_, lambda la: map_ite(b_, lambda lb: oo(la, lb))), st
+    if dpath == 'core::cmp::Ord::cmp' and path.startswith('<core::option::Option<T> as core::cmp::Ord>'):
+        a_ = ex.load(st, args[0])
+        b_ = ex.load(st, args[1])
+        while a_[0] == 'ref':
+            a_ = ex.load(st, a_)
+        while b_[0] == 'ref':
+            b_ = ex.load(st, b_)
+
+        def oc(la, lb):
+            sa_, sb_ = la[1][2] == 1, lb[1][2] == 1
+            if sa_ and sb_:
+                return lex_cmp(ex, la[2][0], lb[2][0])
+            if not sa_ and not sb_:
+                return ordering(ex, 'Equal')
+            return ordering(ex, 'Greater' if sa_ else 'Less')
+        return map_ite(a_, lambda la: map_ite(b_, lambda lb: oc(la, lb))), st
+    if path in ('core::char::methods::<impl char>::from_digit', 'core::char::from_digit', 'core::char::convert::from_digit'):
+        n_, r_ = args
+        if r_[0] != 'c':
+            raise Uncertified("char::from_digit with a symbolic radix")
+        ex.obligations.append(Obligation(key, line, 'from_digit radix', C(1 if 2 <= r_[1] <= 36 else 0, 'bool'), ex.gs(st), None, tuple(ex.fn_stack)))
+        dig_ = mk_cast(mk_bin('Add', n_, C(0x30, 'u32'), 'u32', 'u32'), 'char')
+        if r_[1] > 10:
+            dig_ = mk_ite(mk_bin('Lt', n_, C(10, 'u32'), 'u32', 'bool'), dig_, mk_cast(mk_bin('Add', n_, C(0x61 - 10, 'u32'), 'u32', 'u32'), 'char'))
+        return mk_ite(mk_bin('Lt', n_, C(r_[1], 'u32'), 'u32', 'bool'), option_some(dig_), OPTION_NONE), st
     if path in ('core::char::methods::<impl char>::from_u32', 'core::char::from_u32', 'core::char::convert::from_u32'):
         v_ = args[0]
         ok_ = mk_or(mk_bin('Lt', v_, C(0xD800, 'u32'), 'u32', 'bool'),
@@ -655,6 +772,29 @@ def apply(ex, ctx, st, f, args, dest_ty, term):
         sh = mk_bin('Sub', C(bits, 'u32'), lz, 'u32', 'u32')
         ex.obligations.append(Obligation(key, line, 'next_power_of_two overflow', mk_or(mk_bin('Le', a, C(1, ty), ty, 'bool'), mk_bin('Lt', sh, C(bits, 'u32'), 'u32', 'bool')), ex.gs(st), [a], tuple(ex.fn_stack)))
         return mk_ite(mk_bin('Le', a, C(1, ty), ty, 'bool'), C(1, ty), mk_bin('Shl', C(1, ty), sh, ty, ty)), st
+    if int_method('ilog2') or int_method('checked_ilog2'):
+        a = args[0]
+        ty = ty_of(a)
+        if ty not in INT_BITS or is_signed(ty):
+            raise Uncertified("ilog2 of %s" % ty)
+        bits = INT_BITS[ty]
+        nz = mk_bin('Ne', a, C(0, ty), ty, 'bool')
+        if a[0] == 'c':
+            val = C(max(a[1].bit_length() - 1, 0), 'u32')
+        else:
+            val = mk_bin('Sub', C(bits - 1, 'u32'), mk_call('leading_zeros', (a,), 'u32'), 'u32', 'u32')
+        if name == 'checked_ilog2':
+            return mk_ite(nz, option_some(val), OPTION_NONE), st
+        ex.obligations.append(Obligation(key, line, 'ilog2 of zero', nz, ex.gs(st), [a], tuple(ex.fn_stack)))
+        return val, st
+    if int_method('leading_ones') or int_method('trailing_ones'):
+        a = args[0]
+        ty = ty_of(a)
+        na = mk_un('Not', a, ty) if a[0] != 'c' else C(~a[1] & ((1 << INT_BITS[ty]) - 1), ty)
+        m2 = 'leading_zeros' if name == 'leading_ones' else 'trailing_zeros'
+        if na[0] == 'c':
+            return C(conc_intfn(m2, na[1], ty), 'u32'), st
+        return mk_call(m2, (na,), 'u32'), st
     if int_method('is_power_of_two'):
         a = args[0]
         return mk_bin('Eq', mk_call('count_ones', (a,), 'u32'), C(1, 'u32'), 'u32', 'bool'), st
@@ -997,7 +1137,6 @@ def apply(ex, ctx, st, f, args, dest_ty, term):
             to = pdb.tys(f['targs'][0])
         if frm not in INT_BITS or to not in INT_BITS:
             raise Uncertified("numeric TryFrom %s -> %s" % (frm, to))
-        from .pdb import is_signed
         bits = INT_BITS[to]
         lo, hi = (-(1 << (bits - 1)), (1 << (bits - 1)) - 1) if is_signed(to) else (0, (1 << bits) - 1)
         fb = INT_BITS[frm]
@@ -1439,8 +1578,21 @@ def apply(ex, ctx, st, f, args, dest_ty, term):
             res = map_ite_memo(pos, lambda p: from_pos(p)[0])
             ex.store(st, itref, mk('agg', k, (seq, conds, map_ite_memo(pos, lambda p: from_pos(p)[1]))))
             return res, st
+        if k[0] == 'model' and k[1] == 'PrefixSeq':
+            seq, conds, pos = it[2]
+            if pos[1] >= len(seq[2]):
+                return OPTION_NONE, st
+            ex.store(st, itref, mk('agg', k, (seq, conds, C(pos[1] + 1, 'usize'))))
+            return mk_ite(conds[2][pos[1]], option_some(seq[2][pos[1]]), OPTION_NONE), st
         if k[0] == 'model':
+            pc_ok = prefix_closed(ex, st, it)
             citems, st = iter_items_cond(ex, ctx, st, it)
+            if pc_ok and not all(c is TRUE for c, _ in citems):
+                # items present on a prefix only (a compacted filter under zip/enumerate/skip/take): the k-th call
+                # yields item k when it is present
+                ps = m_iter('PrefixSeq', agg(('array',), [x for _, x in citems]), agg(('tuple',), [c for c, _ in citems]), C(0, 'usize'))
+                ex.store(st, itref, ps)
+                return apply(ex, ctx, st, f, args, dest_ty, term)
             if all(c is TRUE for c, _ in citems):
                 items = [x for _, x in citems]
                 if items:
@@ -1678,7 +1830,27 @@ def apply(ex, ctx, st, f, args, dest_ty, term):
         if itref[0] == 'ref':
             ex.store(st, itref, m_iter('ArrayIter', agg(('array',), items[k_ + 1:]), C(0, 'usize')))
         return (option_some(items[k_]) if k_ < len(items) else OPTION_NONE), st
-    if dpath == 'core::iter::Iterator::collect' or dpath == 'core::iter::Iterator::nth':
+    if dpath == 'core::iter::Iterator::nth':
+        itref = args[0]
+        it_ = ex.load(st, itref) if itref[0] == 'ref' else itref
+        n_sym = args[1]
+        if it_[0] == 'agg' and it_[1][0] == 'model' and it_[1][1] in ('SliceIter', 'ArrayIter') and it_[2][0][0] == 'agg' and pos_consts(it_[2][1]):
+            seq, pos = it_[2]
+            ln = len(seq[2])
+
+            def from_pos(p):
+                res, np_ = OPTION_NONE, C(ln, 'usize')
+                for i in range(ln - 1, p[1] - 1, -1):
+                    hit = mk_bin('Eq', n_sym, C(i - p[1], 'usize'), 'usize', 'bool')
+                    res = mk_ite(hit, option_some(seq[2][i]), res)
+                    np_ = mk_ite(hit, C(i + 1, 'usize'), np_)
+                return res, np_
+            res = map_ite_memo(pos, lambda p: from_pos(p)[0])
+            if itref[0] == 'ref':
+                ex.store(st, itref, mk('agg', it_[1], (seq, map_ite_memo(pos, lambda p: from_pos(p)[1]))))
+            return res, st
+        raise Uncertified("iterator consumer nth with a symbolic count")
+    if dpath == 'core::iter::Iterator::collect':
         raise Uncertified("iterator consumer %s" % name)
     if path in ('core::slice::<impl [T]>::windows', 'core::slice::<impl [T]>::chunks'):
         arr0 = ex.load(st, args[0])
